@@ -48,6 +48,8 @@ struct World {
   std::vector<Ev> log;
   std::map<std::thread::id, int> tids;
   int work = 0;                // scheduling points a leaf spends
+  bool lvalues = false;        // pass named functors (lvalues) to parallel_invoke
+  bool saturate = false;       // the preloaded tasks stay outstanding until the top-level call has returned
 };
 
 static World* W;
@@ -89,6 +91,13 @@ static void runNode(int id) {
 
 template <size_t... I>
 static void invokeN(const std::vector<int>& k, std::index_sequence<I...>) {
+  if (W->lvalues) {
+    // the documented recursive idiom with named functors: they live in this frame, which returns before the
+    // task set's wait(); parallel_invoke must have taken its own copies
+    auto fs = std::make_tuple([c = k[I]] { runNode(c); }...);
+    dispenso::parallel_invoke(*W->ts, std::get<I>(fs)...);
+    return;
+  }
   dispenso::parallel_invoke(*W->ts, [c = k[I]] { runNode(c); }...);
 }
 
@@ -108,6 +117,8 @@ static void invokeKids(int id) {
 }
 
 // a random program: `shape` 0 flat, 1 binary divide and conquer, 2 random arities, 3 a deep chain with side branches
+// (through the last child: the inline path by design), 4 a deep chain through the FIRST child (the scheduled one: on a
+// saturated set it is run inline under the depth guard, up to and beyond kMaxInlineDepth)
 static void build(World& w, vh::SplitMix& rng, int shape, int budget) {
   w.nodes.clear();
   w.nodes.reserve((size_t)budget + 16);
@@ -115,17 +126,18 @@ static void build(World& w, vh::SplitMix& rng, int shape, int budget) {
   w.nodes[0].path = "-";
   struct Item { int id; int depth; };
   std::vector<Item> todo{{0, 0}};
-  int maxDepth = shape == 0 ? 1 : shape == 1 ? 12 : shape == 2 ? 4 : 30;
+  int maxDepth = shape == 0 ? 1 : shape == 1 ? 12 : shape == 2 ? 4 : shape == 3 ? 30 : 60;
   while (!todo.empty()) {
-    size_t pick = shape == 3 ? todo.size() - 1 : rng.below(todo.size());
+    size_t pick = shape >= 3 ? todo.size() - 1 : rng.below(todo.size());
     Item it = todo[pick];
     todo.erase(todo.begin() + (long)pick);
     int room = budget - (int)w.nodes.size();
     int n;
-    if (it.id == 0) n = shape == 0 ? (int)rng.range(1, 8) : shape == 1 ? 2 : shape == 3 ? (int)rng.range(1, 3) : (int)rng.range(1, 8);
+    if (it.id == 0) n = shape == 0 ? (int)rng.range(1, 8) : shape == 1 ? 2 : shape == 3 ? (int)rng.range(1, 3) : shape == 4 ? 2 : (int)rng.range(1, 8);
     else if (it.depth >= maxDepth || room <= 0) n = 0;
     else if (shape == 1) n = rng.below(8) == 0 ? 0 : 2;
     else if (shape == 3) n = (int)rng.range(1, 3);
+    else if (shape == 4) n = 2;
     else n = rng.below(3) == 0 ? (int)rng.range(1, 8) : 0;
     if (it.id != 0 && n > room) n = room > 0 ? room : 0;
     for (int i = 0; i < n; ++i) {
@@ -134,7 +146,8 @@ static void build(World& w, vh::SplitMix& rng, int shape, int budget) {
       w.nodes[c].path = (it.id == 0 ? std::string() : w.nodes[it.id].path + ".") + std::to_string(i);
       w.nodes[it.id].kids.push_back(c);
       // in the chain shape only the last child goes deeper (the inline path), the others are leaves or small
-      if (shape != 3 || i == n - 1 || rng.below(4) == 0) todo.push_back({c, it.depth + 1});
+      if (shape == 4) { if (i == 0) todo.push_back({c, it.depth + 1}); }
+      else if (shape != 3 || i == n - 1 || rng.below(4) == 0) todo.push_back({c, it.depth + 1});
     }
   }
 }
@@ -184,11 +197,17 @@ static void theProgram(World& w, dispenso::ThreadPool& pool, int preload, bool l
   std::unique_ptr<dispenso::ConcurrentTaskSet> ts(
       lightweight ? new dispenso::ConcurrentTaskSet(pool, dispenso::TaskCost::kLightweight) : new dispenso::ConcurrentTaskSet(pool));
   w.ts = ts.get();
-  std::atomic<int> gate{0};
-  for (int i = 0; i < preload; ++i) ts->schedule([&gate] { gate.fetch_add(1, std::memory_order_relaxed); });
+  std::atomic<int> gate{0}, release{0};
+  bool hold = w.saturate;
+  for (int i = 0; i < preload; ++i)
+    ts->schedule([&gate, &release, hold] {
+      gate.fetch_add(1, std::memory_order_relaxed);
+      while (hold && !release.load(std::memory_order_acquire)) std::this_thread::yield();
+    }, dispenso::ForceQueuingTag());
   myTid();                       // the calling thread is thread 0
   invokeKids(0);
   logEv('R', 0);
+  release.store(1, std::memory_order_release);
   ts->wait();
   logEv('W', 0);
   w.ts = nullptr;
@@ -219,15 +238,18 @@ int main(int argc, char** argv) {
   for (long long it = 0; it < N; ++it) {
     World w;
     W = &w;
-    int shape = (int)rng.below(4);
+    int shape = (int)rng.below(5);
 #if defined(DSCHED)
-    int budget = shape == 0 ? 9 : (int)rng.range(4, 40);
+    int budget = shape == 0 ? 9 : shape == 4 ? (int)rng.range(70, 130) : (int)rng.range(4, 40);
 #else
     int budget = shape == 0 ? 9 : (int)rng.range(4, 400);
 #endif
     build(w, rng, shape, budget);
     int poolN = (int)rng.below(4);
     int preload = rng.below(4) == 0 ? (int)rng.range(1, 4 * std::max(poolN, 1) + 4) : 0;
+    if (shape == 4) { poolN = std::max(poolN, 1); preload = 4 * poolN + 4; }   // saturated set: scheduled functors run inline
+    w.saturate = shape == 4;
+    w.lvalues = rng.below(3) == 0;
     bool light = rng.below(4) == 0;
     w.work = (int)rng.below(4);
     char desc[300];
